@@ -3,7 +3,7 @@ import itertools
 import json
 
 from extract import break_computed, break_table
-from harness import docs, pm, pm_corr
+from harness import c04_tables, docs, pm, pm_corr
 from vlib import sx
 from vlib.framework import PropCheck
 from vlib.paths import CORPUS
@@ -140,7 +140,7 @@ class C04(PropCheck):
     id = 'C04'
     extractors = (break_table.generate, break_computed.generate)
     modules = ('WpModel.Props.C04', 'WpModel.Props.C04Trace', 'WpModel.Witness.C04', 'WpModel.Props.C04Pm2',
-               'WpModel.Witness.C04Pm2', 'WpModel.Props.C04Computed')
+               'WpModel.Witness.C04Pm2', 'WpModel.Props.C04Computed', 'WpModel.Props.C04Table')
     trusted_base = (
         'modelled, not verified: block_level_page_break / avoid_page_break / force_page_break as table + fold '
         '(tables regenerated from block.py by AST and by calling the real functions)',
@@ -217,6 +217,8 @@ class C04(PropCheck):
             for col in (True, False):
                 sec3.add(sx.line('avoids', col, v), str(bool(block.avoid_page_break(v, Ctx(col)))).lower())
                 sec3.add(sx.line('forces', col, v), str(bool(block.force_page_break(v, Ctx(col)))).lower())
+        # tables with captions / groups / rows: where the values are read; avoid + out-of-flow boxes: nothing lost
+        c04_tables.add_sections(self, run)
 
     def classify(self, d):
         if d['section'] == 'avoid-families' and d['meta']['doc_id'] in self._avoid_known:
@@ -224,6 +226,8 @@ class C04(PropCheck):
         return None
 
     def judge(self, d):
+        if d['section'] in c04_tables.SECTIONS:
+            return c04_tables.judge(self, d)
         if d['section'] == 'avoid-families':
             return (f'{d["meta"]["doc_id"]}: avoided break not honoured although the unit is not the first content of '
                     f'its page: {d["model"]}; between={d["meta"]["between"]} inside={d["meta"]["inside"]}')
@@ -246,6 +250,10 @@ class C04(PropCheck):
         """Documents realising short value sequences, judged by the adjacency oracle."""
         docs.quiet()
         from weasyprint.layout import block
+        if any(f['kind'] == 'correspondence' and f['name'] in c04_tables.SECTIONS for f in failures):
+            found = c04_tables.search(self, run, failures)
+            if found:
+                return found
         found = []
         seqs = [list(p) for n in (1, 2) for p in itertools.product(VALUES, repeat=n)]
         # function level first: the clauses stated directly on the real function, all sequences <= 3
@@ -304,6 +312,9 @@ class C04(PropCheck):
         inp = data.get('input', {})
         meta = inp.get('meta') if isinstance(inp.get('meta'), dict) else {}
         doc_id = str(meta.get('doc_id', ''))
+        handled, what = c04_tables.replay(self, meta)
+        if handled:
+            return what
         if doc_id.startswith(('avoid-', 'brk-')):
             from vlib import lean
             cases = avoid_family_cases(doc_id) if doc_id.startswith('avoid-') else break_family_cases(doc_id)
@@ -585,7 +596,13 @@ MANIFEST = {
             'written to the value the layout sees (always -> page, the page-break-* aliases, which spellings force / '
             'avoid) is a complete graph regenerated each run from the real validators, expanders and computer '
             'functions (Gen/BreakComputed, theorems C04Computed.*). Pagination-level clauses (new page '
-            'actually started, orphans/widows) are carried by the pagination model once registered.',
+            'actually started, orphans/widows) are carried by the pagination model once registered. Tables: a model of '
+            'wrap_table (captions, anonymous / header / footer row groups, break-before/-after moved to the wrapper) and of '
+            'page_values, with the theorem that a forcing value written on a table element forces the break before / '
+            'after the whole table, captions included, and never acts inside it (C04Table.forced_before_table, '
+            'inside_independent), tied to the real cascade + build + block_level_page_break on generated documents and '
+            'to the rendered pages (C04Table.tableObs_sound); honouring an avoided break loses nothing '
+            '(C04Table.avoid_conserve_sound, documents with out-of-flow boxes around the earlier break point).',
     'note': 'Trusted: Lean kernel, the AST/graph translators, the harness mapping box classes to block-parallel flags. '
             'avoid_wins is proved with the hypothesis that no `column` value meets outside a multi-column container '
             '(known finding column-hides-avoid). Document-level rendering is used only to search for failing inputs.',
